@@ -511,3 +511,24 @@ package shell_operator
 //@     invariant [st] forall(k, n0, n0 + len(onStartupHooks), queue.addLastTask[k].(*task.BaseTask).Type == task_metadata.HookRun && dyntype(queue.addLastTask[k].(*task.BaseTask).Metadata, task_metadata.HookMetadata)
 //@        && queue.addLastTask[k].(*task.BaseTask).Metadata.(task_metadata.HookMetadata).HookName == onStartupHooks[k - n0] && queue.addLastTask[k].(*task.BaseTask).Metadata.(task_metadata.HookMetadata).BindingType == "onStartup")
 //@     invariant [en] forall(k, n0 + len(onStartupHooks), queue.nAddLast, queue.addLastTask[k].(*task.BaseTask).Type == task_metadata.EnableKubernetesBindings || queue.addLastTask[k].(*task.BaseTask).Type == task_metadata.EnableScheduleBindings)
+
+// ---- C03: the Synchronization tasks of a hook stay in the queue that enabled its bindings --------
+// The tasks are handed back as HeadTasks, i.e. the worker of the queue that ran the enabling task
+// (main, see bootstrapMainQueue) puts them at the head of that same queue: they must name that
+// queue, because taskHandleHookRun combines and removes tasks of the queue the task names.
+//@ package github.com/flant/shell-operator/pkg/hook/controller
+//@ trusted func (*kubernetesBindingsController).EnableKubernetesBindings
+//@   modifies nothing
+//@ trusted func KubernetesBindingsController.EnableKubernetesBindings
+//@   modifies nothing
+//@ package github.com/flant/shell-operator/pkg/shell-operator
+//@ func (*ShellOperator).taskHandleEnableKubernetesBindings
+//@   prop C03
+//@   inlines (*HookController).HandleEnableKubernetesBindings, (*ShellOperator).taskHandleEnableKubernetesBindings$1
+//@   requires op != nil && op.HookManager != nil && t != nil
+//@   ensures [sync-tasks-name-main] forall(i, 0, len(result.HeadTasks), dyntype(result.HeadTasks[i], *task.BaseTask) && result.HeadTasks[i].(*task.BaseTask) != nil && result.HeadTasks[i].(*task.BaseTask).QueueName == "main")
+//@   ensures [only-head-tasks] len(result.TailTasks) == 0 && len(result.AfterTasks) == 0
+//@   loop (*HookController).HandleEnableKubernetesBindings#1
+//@     invariant forall(i, 0, len(hookRunTasks), dyntype(hookRunTasks[i], *task.BaseTask) && hookRunTasks[i].(*task.BaseTask) != nil && hookRunTasks[i].(*task.BaseTask).QueueName == "main")
+//@   loop 1
+//@     invariant forall(i, 0, len(hookRunTasks), dyntype(hookRunTasks[i], *task.BaseTask) && hookRunTasks[i].(*task.BaseTask) != nil && hookRunTasks[i].(*task.BaseTask).QueueName == "main")
